@@ -391,6 +391,26 @@ def evaluate_real(spec, m, objs=None):
     return rows, None
 
 
+def evaluate_again_after(spec, m, objs, change):
+    """the SAME query object evaluated, the world changed in place by change(objs), and evaluated again
+    -> (rows of the second evaluation, exception or None)"""
+    b = build(spec, m, objs)
+    idmap = {id(o): i for i, o in enumerate(b.objs)}
+    try:
+        for _ in b.query.evaluate():
+            pass
+    except Exception as e:
+        return [], e
+    change(objs)
+    rows = []
+    try:
+        for r in b.query.evaluate():
+            rows.append(tuple(canon_val(v, idmap) for v in row_of(r, b, spec)))
+    except Exception as e:
+        return rows, e
+    return rows, None
+
+
 # --------------------------------------------------------------------------- oracle
 class OracleError(Exception):
     """the plain-Python reading itself raises (generator produced an ill-typed case)"""
